@@ -1,1 +1,376 @@
-//! (module owned by one property family; see AGENT_GUIDE.md)
+//! Independent position model (shared oracle of C22 / C23 / C26 and anything that validates LSP ranges).
+//!
+//! It is written from the LSP specification only and never calls `LineIndex` / `LuaDocument`:
+//!
+//! * a *position* is `(line, character)`, both zero based;
+//! * lines end at `\n`, `\r\n` or `\r` ([`LineSplit::Lsp`], what the protocol says) or only at `\n`
+//!   ([`LineSplit::LfOnly`], what the pinned tree does — kept so that checks which are *not* about
+//!   line endings can accept either);
+//! * `character` counts UTF-16 code units ([`Encoding::Utf16`], the protocol default), Unicode
+//!   scalar values ([`Encoding::Scalar`], what the pinned tree does) or bytes ([`Encoding::Utf8`]);
+//! * a `character` greater than the line length "defaults back to the line length" (spec, `Position`);
+//!   the line length does not include the terminator;
+//! * a `line` that does not exist addresses nothing.
+//!
+//! Offsets are byte offsets into the UTF-8 text, as everywhere in the code under test.
+//!
+//! ```ignore
+//! let m = PosModel::new("a😀b\r\nc", Encoding::Utf16, LineSplit::Lsp);
+//! assert_eq!(m.line_count(), 2);
+//! assert_eq!(m.line_len_units(0), Some(4));            // a + 2 units + b
+//! assert_eq!(m.to_offset(0, 3), Some(5));              // before 'b'
+//! assert_eq!(m.to_offset(0, 99), Some(6));             // clamped to the end of line 0 (before "\r\n")
+//! assert_eq!(m.to_offset(2, 0), None);                 // no such line
+//! assert_eq!(m.to_position(8), (1, 0));
+//! assert_eq!(m.slice((0, 1), (0, 3)), Some("😀"));
+//! ```
+
+#[derive(Clone, Copy, Debug, PartialEq, Eq, Hash, PartialOrd, Ord)]
+pub enum Encoding {
+    /// UTF-16 code units (LSP default / mandatory-to-support encoding).
+    Utf16,
+    /// Unicode scalar values (`str::chars()`), i.e. LSP "utf-32".
+    Scalar,
+    /// UTF-8 bytes (LSP "utf-8").
+    Utf8,
+}
+
+#[derive(Clone, Copy, Debug, PartialEq, Eq, Hash, PartialOrd, Ord)]
+pub enum LineSplit {
+    /// `\n`, `\r\n` and `\r` end a line (LSP specification).
+    Lsp,
+    /// only `\n` ends a line; `\r` is ordinary line content.
+    LfOnly,
+}
+
+impl Encoding {
+    pub fn name(self) -> &'static str {
+        match self {
+            Encoding::Utf16 => "utf-16",
+            Encoding::Scalar => "scalar",
+            Encoding::Utf8 => "utf-8",
+        }
+    }
+    /// width of one character in units of this encoding
+    pub fn units(self, c: char) -> u32 {
+        match self {
+            Encoding::Utf16 => c.len_utf16() as u32,
+            Encoding::Scalar => 1,
+            Encoding::Utf8 => c.len_utf8() as u32,
+        }
+    }
+    /// width of a string in units of this encoding
+    pub fn str_units(self, s: &str) -> u32 {
+        match self {
+            Encoding::Utf8 => s.len() as u32,
+            _ => s.chars().map(|c| self.units(c)).sum(),
+        }
+    }
+}
+
+impl LineSplit {
+    pub fn name(self) -> &'static str {
+        match self {
+            LineSplit::Lsp => "lf+crlf+cr",
+            LineSplit::LfOnly => "lf-only",
+        }
+    }
+}
+
+/// The four (encoding, split) combinations a check may have to tolerate, protocol-conformant first.
+pub const VARIANTS: [(Encoding, LineSplit); 4] = [
+    (Encoding::Utf16, LineSplit::Lsp),
+    (Encoding::Utf16, LineSplit::LfOnly),
+    (Encoding::Scalar, LineSplit::Lsp),
+    (Encoding::Scalar, LineSplit::LfOnly),
+];
+
+#[derive(Clone, Debug)]
+pub struct PosModel {
+    text: String,
+    enc: Encoding,
+    split: LineSplit,
+    /// byte offset of the first byte of every line
+    starts: Vec<usize>,
+    /// byte offset of the end of the line *content* (before the terminator; == next start for none)
+    ends: Vec<usize>,
+}
+
+impl PosModel {
+    pub fn new(text: &str, enc: Encoding, split: LineSplit) -> Self {
+        let b = text.as_bytes();
+        let mut starts = vec![0usize];
+        let mut ends = Vec::new();
+        let mut i = 0;
+        while i < b.len() {
+            match b[i] {
+                b'\n' => {
+                    ends.push(i);
+                    starts.push(i + 1);
+                    i += 1;
+                }
+                b'\r' if split == LineSplit::Lsp => {
+                    ends.push(i);
+                    if i + 1 < b.len() && b[i + 1] == b'\n' {
+                        i += 2;
+                    } else {
+                        i += 1;
+                    }
+                    starts.push(i);
+                }
+                _ => i += 1,
+            }
+        }
+        ends.push(b.len());
+        debug_assert_eq!(starts.len(), ends.len());
+        PosModel { text: text.to_string(), enc, split, starts, ends }
+    }
+
+    /// UTF-16 columns, lines split at `\n`, `\r\n`, `\r`: what the protocol prescribes when nothing is negotiated.
+    pub fn lsp(text: &str) -> Self {
+        Self::new(text, Encoding::Utf16, LineSplit::Lsp)
+    }
+
+    /// One model per entry of [`VARIANTS`], for checks that accept any self-consistent convention.
+    pub fn all_variants(text: &str) -> Vec<PosModel> {
+        VARIANTS.iter().map(|(e, s)| PosModel::new(text, *e, *s)).collect()
+    }
+
+    pub fn text(&self) -> &str {
+        &self.text
+    }
+    pub fn encoding(&self) -> Encoding {
+        self.enc
+    }
+    pub fn line_split(&self) -> LineSplit {
+        self.split
+    }
+    pub fn name(&self) -> String {
+        format!("{}/{}", self.enc.name(), self.split.name())
+    }
+
+    /// Number of lines. A text always has at least one line; a trailing terminator opens a last empty line
+    /// (`"a\n"` has 2 lines), as in every LSP client.
+    pub fn line_count(&self) -> u32 {
+        self.starts.len() as u32
+    }
+
+    /// Byte offset of the first byte of `line`.
+    pub fn line_start(&self, line: u32) -> Option<usize> {
+        self.starts.get(line as usize).copied()
+    }
+
+    /// Byte offset of the end of the content of `line` (the position of its terminator, or the end of the text).
+    pub fn line_end(&self, line: u32) -> Option<usize> {
+        self.ends.get(line as usize).copied()
+    }
+
+    /// Byte offset just after the terminator of `line` (= start of the next line, or the end of the text).
+    pub fn line_end_with_terminator(&self, line: u32) -> Option<usize> {
+        let l = line as usize;
+        if l >= self.starts.len() {
+            None
+        } else if l + 1 < self.starts.len() {
+            Some(self.starts[l + 1])
+        } else {
+            Some(self.text.len())
+        }
+    }
+
+    /// Content of `line` without its terminator.
+    pub fn line_text(&self, line: u32) -> Option<&str> {
+        let l = line as usize;
+        if l >= self.starts.len() {
+            return None;
+        }
+        Some(&self.text[self.starts[l]..self.ends[l]])
+    }
+
+    /// Length of the content of `line` in units of the model's encoding (terminator excluded).
+    pub fn line_len_units(&self, line: u32) -> Option<u32> {
+        self.line_text(line).map(|s| self.enc.str_units(s))
+    }
+
+    /// Offset addressed by `(line, ch)` following the protocol: `None` when the line does not exist;
+    /// `ch` past the end of the line is clamped to the end of the line content; a `ch` that falls
+    /// inside a character (second half of a surrogate pair, continuation byte) is rounded *down* to the
+    /// start of that character (the spec is silent; use [`PosModel::to_offset_admissible`] when judging
+    /// an implementation).
+    pub fn to_offset(&self, line: u32, ch: u32) -> Option<usize> {
+        let l = line as usize;
+        if l >= self.starts.len() {
+            return None;
+        }
+        let (s, e) = (self.starts[l], self.ends[l]);
+        let mut units = 0u32;
+        for (i, c) in self.text[s..e].char_indices() {
+            let w = self.enc.units(c);
+            if units + w > ch {
+                return Some(s + i);
+            }
+            units += w;
+        }
+        Some(e)
+    }
+
+    /// Like [`PosModel::to_offset`] but `None` unless `(line, ch)` addresses a character boundary
+    /// of an existing line exactly (no clamping, no rounding).
+    pub fn to_offset_exact(&self, line: u32, ch: u32) -> Option<usize> {
+        let o = self.to_offset(line, ch)?;
+        let l = line as usize;
+        if self.enc.str_units(&self.text[self.starts[l]..o]) == ch { Some(o) } else { None }
+    }
+
+    /// Every offset an implementation may return for `(line, ch)` without contradicting the protocol text:
+    /// * no such line → empty (the implementation must return nothing);
+    /// * exact boundary → that offset only;
+    /// * inside a character → its start or its end;
+    /// * past the end of the line → the end of the line content; offsets inside the terminator and the
+    ///   start of the next line are also listed when `lenient_terminator` is set (older reference clients
+    ///   clamped to the start of the next line).
+    pub fn to_offset_admissible(&self, line: u32, ch: u32, lenient_terminator: bool) -> Vec<usize> {
+        let l = line as usize;
+        if l >= self.starts.len() {
+            return vec![];
+        }
+        if let Some(o) = self.to_offset_exact(line, ch) {
+            return vec![o];
+        }
+        let len = self.line_len_units(line).unwrap_or(0);
+        if ch > len {
+            let mut v = vec![self.ends[l]];
+            if lenient_terminator {
+                let stop = self.line_end_with_terminator(line).unwrap_or(self.ends[l]);
+                for o in self.ends[l] + 1..=stop {
+                    v.push(o);
+                }
+            }
+            return v;
+        }
+        // inside a character
+        let lo = self.to_offset(line, ch).unwrap_or(self.ends[l]);
+        let w = self.text[lo..].chars().next().map(|c| c.len_utf8()).unwrap_or(0);
+        vec![lo, lo + w]
+    }
+
+    /// True when `(line, ch)` is an existing line and `ch` ≤ its length (a position a server may *emit*).
+    pub fn is_valid_position(&self, line: u32, ch: u32) -> bool {
+        match self.line_len_units(line) {
+            Some(len) => ch <= len,
+            None => false,
+        }
+    }
+
+    /// Position of byte offset `offset`. Offsets past the end are clamped to the end of the text; an offset
+    /// inside a character is rounded down to its start; an offset inside a terminator (between `\r` and `\n`
+    /// of a CRLF under [`LineSplit::Lsp`]) is reported as the end of that line's content.
+    pub fn to_position(&self, offset: usize) -> (u32, u32) {
+        let mut o = offset.min(self.text.len());
+        while !self.text.is_char_boundary(o) {
+            o -= 1;
+        }
+        // last line whose start <= o
+        let l = self.starts.partition_point(|&s| s <= o) - 1;
+        let o = o.min(self.ends[l]); // inside the terminator -> end of the content
+        (l as u32, self.enc.str_units(&self.text[self.starts[l]..o]))
+    }
+
+    /// True when `offset` is a char boundary that has an exact position (i.e. not inside a CRLF terminator).
+    pub fn is_representable_offset(&self, offset: usize) -> bool {
+        if offset > self.text.len() || !self.text.is_char_boundary(offset) {
+            return false;
+        }
+        let l = self.starts.partition_point(|&s| s <= offset) - 1;
+        offset <= self.ends[l]
+    }
+
+    /// The text selected by the LSP range `start..end` (clamping as the protocol says), `None` when a line
+    /// does not exist or the range is inverted.
+    pub fn slice(&self, start: (u32, u32), end: (u32, u32)) -> Option<&str> {
+        let s = self.to_offset(start.0, start.1)?;
+        let e = self.to_offset(end.0, end.1)?;
+        if s > e {
+            return None;
+        }
+        Some(&self.text[s..e])
+    }
+
+    /// Like [`PosModel::slice`] but `None` when either end is not an exact position of the text.
+    pub fn slice_exact(&self, start: (u32, u32), end: (u32, u32)) -> Option<&str> {
+        let s = self.to_offset_exact(start.0, start.1)?;
+        let e = self.to_offset_exact(end.0, end.1)?;
+        if s > e {
+            return None;
+        }
+        Some(&self.text[s..e])
+    }
+
+    /// LSP range of the byte range `s..e`.
+    pub fn range_of(&self, s: usize, e: usize) -> ((u32, u32), (u32, u32)) {
+        (self.to_position(s), self.to_position(e))
+    }
+}
+
+/// Which of the [`VARIANTS`] make the LSP range `start..end` select exactly `expected` in `text`
+/// (empty result = the range is wrong under every convention).
+pub fn conventions_selecting(text: &str, start: (u32, u32), end: (u32, u32), expected: &str) -> Vec<(Encoding, LineSplit)> {
+    VARIANTS
+        .iter()
+        .copied()
+        .filter(|(e, s)| PosModel::new(text, *e, *s).slice_exact(start, end) == Some(expected))
+        .collect()
+}
+
+/// Does the text contain anything on which the conventions of [`VARIANTS`] can differ at all?
+/// (astral characters for the encoding, `\r` for the line split)
+pub fn discriminates(text: &str) -> (bool, bool) {
+    (text.chars().any(|c| c.len_utf16() == 2), text.contains('\r'))
+}
+
+#[cfg(test)]
+mod tests {
+    use super::*;
+
+    #[test]
+    fn basics() {
+        let m = PosModel::new("a😀b\r\nc", Encoding::Utf16, LineSplit::Lsp);
+        assert_eq!(m.line_count(), 2);
+        assert_eq!(m.line_len_units(0), Some(4));
+        assert_eq!(m.to_offset(0, 3), Some(5));
+        assert_eq!(m.to_offset(0, 2), Some(1)); // inside the pair: rounded down
+        assert_eq!(m.to_offset_exact(0, 2), None);
+        assert_eq!(m.to_offset_admissible(0, 2, false), vec![1, 5]);
+        assert_eq!(m.to_offset(0, 99), Some(6));
+        assert_eq!(m.to_offset_admissible(0, 99, true), vec![6, 7, 8]);
+        assert_eq!(m.to_offset(2, 0), None);
+        assert_eq!(m.to_position(8), (1, 0));
+        assert_eq!(m.to_position(7), (0, 4)); // between \r and \n
+        assert_eq!(m.to_position(9), (1, 1));
+        assert_eq!(m.to_position(100), (1, 1));
+        assert_eq!(m.slice((0, 1), (0, 3)), Some("😀"));
+        let s = PosModel::new("a😀b\r\nc", Encoding::Scalar, LineSplit::LfOnly);
+        assert_eq!(s.line_len_units(0), Some(4)); // a 😀 b \r
+        assert_eq!(s.to_offset(0, 2), Some(5));
+        assert_eq!(s.to_position(7), (0, 4));
+        let e = PosModel::new("", Encoding::Utf16, LineSplit::Lsp);
+        assert_eq!(e.line_count(), 1);
+        assert_eq!(e.to_offset(0, 5), Some(0));
+        assert_eq!(e.to_position(0), (0, 0));
+        let t = PosModel::new("x\r", Encoding::Utf16, LineSplit::Lsp);
+        assert_eq!(t.line_count(), 2);
+        assert_eq!(t.to_position(2), (1, 0));
+        let r = PosModel::new("a\rb\nc", Encoding::Utf16, LineSplit::Lsp);
+        assert_eq!(r.line_count(), 3);
+        assert_eq!(r.to_offset(1, 0), Some(2));
+        for (enc, sp) in VARIANTS {
+            let txt = "é\r\n😀x\ry\n\nz";
+            let m = PosModel::new(txt, enc, sp);
+            for o in 0..=txt.len() {
+                if m.is_representable_offset(o) {
+                    let (l, c) = m.to_position(o);
+                    assert_eq!(m.to_offset_exact(l, c), Some(o), "{enc:?} {sp:?} {o}");
+                }
+            }
+        }
+    }
+}
